@@ -5,6 +5,16 @@ import json, subprocess, os
 ROOT = os.path.dirname(os.path.abspath(__file__))
 
 CHECKS = {
+ "C19": dict(
+  technique="enumerated command lines, outcome-class matrix and ইনপুট x stdin matrix + rapid programs with a planted fault / syntax error / input call, all through the real executable; oracle = reference front end (65), reference evaluator (stdout, 0 vs 70), exact stream contents",
+  text="Command lines with 0, 1, 2, 3 arguments; script names with every kind of extension (.BN, .txt, none, .bn.txt, trailing blank), names with blanks and Bangla letters, .bn alone, missing file, directory named like a script; programs of every outcome class (clean, lexical error, syntax error, runtime error at the C06 positions) with six kinds of text endings; 0-4 ইনপুট calls (bare, prompt, empty prompt, interleaved with prints) against 0-4 stdin lines with and without final newline and with blanks/tabs around the text; random skeleton programs with a planted runtime fault, syntax error or input call. Exit status 0/65/70/64/non-zero, stdout exactly the prints and prompts (nothing for rejected texts), stderr empty iff clean. Exploration.",
+  note="Trusted: reference front end and evaluator. Permission-denied files cannot be produced (sandbox runs as root). ইনপুট at end of input is unspecified.",
+  ref="4 C19"),
+ "C20": dict(
+  technique="exhaustive short sessions + rapid long sessions fed to the real interactive executable with stdout and stderr on one pipe; fresh-session metamorphic oracle (no model)",
+  text="A pool of 22 one-line inputs using only literals and built-ins (prints, bare expressions of several kinds, a block, a function declaration plus call, a declaration, two lexical errors, three syntax errors, five runtime errors, empty and blank lines). Every session of <=2 (quick) / <=3 (thorough) lines and random sessions of 3-60 lines with and without final newline: the response to each line must equal the response to the same line as the only line of a fresh session, the number of prompts is lines+1, end of input exits 0, a bare expression is echoed exactly as দেখাও prints it, a দেখাও line is answered once. Exploration.",
+  note="The oracle is relational (fresh session vs. later position); it assumes the fresh response itself is sane, which the fresh-responses sub-check examines per line class. Lines longer than the scanner's 64 KiB buffer are outside the explored bound.",
+  ref="4 C20"),
  "C15": dict(
   technique="boundary enumeration + rapid random doubles and strings; oracles: read-back (exact), shortest-digits bound, NFC / canonical-equivalence via x/text/norm, metamorphic relation between দেখাও v, \"\" + v, \"p\" + v and v inside arrays/objects",
   text="Each value is printed six ways (alone, \"\"+v, \"p\"+v, [v], {k: v}, nested). Numbers: boundary doubles (+-0, smallest subnormal, 2^53+-1, powers of ten 1e-6..1e23 with both neighbours, 999999/1e6/1e6+1, 1-17 digit runs, non-finite) and random doubles over bit patterns, short decimals and 15-17 digit values; integer-typed bitwise results up to 2^63. The numeral must read back to exactly that double (or be the exact integer), use no more significant digits than the shortest round-trip numeral, be a plain integer below one million; every দেখাও ends in exactly one newline; \"\"+v and \"p\"+v splice character for character what দেখাও prints. Strings: every code point of the Bangla block in four positions, composing sequences, random mixes of Latin/Bangla/marks/spaces/newlines: output must be NFC and canonically equivalent to the source, alone and inside containers. Exploration.",
